@@ -4,6 +4,7 @@ import (
 	"fmt"
 	"go/token"
 	"go/types"
+	"reflect"
 	"sort"
 	"strings"
 
@@ -200,6 +201,8 @@ func c05(r *core.Run) {
 	c05IDFresh(r)
 	c05EntropyAgree(r)
 	c05PackArgs(r)
+	c05CaseSym(r)
+	c05UniqueTags(r, "C05.TAGS")
 }
 
 // byte range of a Slice expression with constant bounds ("lo:hi", hi empty for open)
@@ -921,4 +924,85 @@ func floatPairs(p *core.Program, fns []*ssa.Function) [][2]ssa.Value {
 		})
 	}
 	return out
+}
+
+// c05CaseSym: a containment / prefix / equality test between two strings of which one was folded to lower (upper)
+// case folds the other one the same way. A pattern stored lower-cased and searched in the raw literal never matches a
+// literal that contains a capital: the function's own string pattern is then "not found" in the function itself.
+func c05CaseSym(r *core.Run) {
+	p := r.P
+	n := 0
+	folded := func(v ssa.Value) string {
+		for _, o := range core.Origins(core.Unwrap(v)) {
+			if c, ok := o.(*ssa.Call); ok {
+				switch core.CalleeName(&c.Call) {
+				case "strings.ToLower":
+					return "lower"
+				case "strings.ToUpper":
+					return "upper"
+				}
+			}
+		}
+		return ""
+	}
+	for _, fn := range p.FuncsIn("pkg/detection") {
+		core.InstrsOf(fn, func(in ssa.Instruction) {
+			c := core.CallOf(in)
+			if c == nil || len(c.Args) != 2 {
+				return
+			}
+			switch core.CalleeName(c) {
+			case "strings.Contains", "strings.HasPrefix", "strings.HasSuffix", "strings.EqualFold":
+			default:
+				return
+			}
+			a, b := folded(c.Args[0]), folded(c.Args[1])
+			if a == "" && b == "" {
+				return
+			}
+			_, ca := core.ConstString(c.Args[0])
+			_, cb := core.ConstString(c.Args[1])
+			if ca || cb {
+				return
+			}
+			n++
+			r.Check(a == b, "C05.CASE", core.FuncName(fn)+"#"+strings.TrimPrefix(core.CalleeName(c), "strings."), in.Pos(), "both strings are folded to "+a+" case", "only one side of the test is case-folded ("+a+"/"+b+"): a pattern that was lower-cased is searched in the raw text, so a literal with a capital letter never matches its own pattern and the indexed function no longer matches itself with full confidence")
+		})
+	}
+	r.Floor("C05.CASE", "string tests with a case-folded operand", n, 1)
+}
+
+// c05UniqueTags: within one serialised struct every json name is used once. encoding/json silently DROPS all fields
+// that share a name at one level, so a copy-pasted tag loses both fields on every save/load.
+func c05UniqueTags(r *core.Run, rule string) {
+	p := r.P
+	n := 0
+	for _, pkg := range p.Prod {
+		if !strings.HasSuffix(pkg.PkgPath, "/pkg/detection") && !strings.HasSuffix(pkg.PkgPath, "/pkg/models") {
+			continue
+		}
+		scope := pkg.Types.Scope()
+		for _, name := range scope.Names() {
+			tn, ok := scope.Lookup(name).(*types.TypeName)
+			if !ok {
+				continue
+			}
+			st, ok := tn.Type().Underlying().(*types.Struct)
+			if !ok {
+				continue
+			}
+			seen := map[string]string{}
+			for i := 0; i < st.NumFields(); i++ {
+				tag := strings.Split(reflect.StructTag(st.Tag(i)).Get("json"), ",")[0]
+				if tag == "" || tag == "-" {
+					continue
+				}
+				n++
+				prev, dup := seen[tag]
+				r.Check(!dup, rule, pkg.Types.Name()+"."+name+"."+st.Field(i).Name()+"#json-name-unique", st.Field(i).Pos(), "json name "+tag+" is used once", "fields "+prev+" and "+st.Field(i).Name()+" of "+name+" share the json name \""+tag+"\": encoding/json drops BOTH, so a JSON database loses them on every save/load and the signature no longer matches its own function")
+				seen[tag] = st.Field(i).Name()
+			}
+		}
+	}
+	r.Floor(rule, "json-tagged fields of the signature and report types", n, 20)
 }
